@@ -495,6 +495,9 @@ package proxy
 //@ contract (*proxyStreamReceiver).recvReplicationMessages
 //@   props C02 C01 C04 C03
 //@   counts GetRemoteSendChansByCluster
+// each local target gets its OWN copy of the watermark message: every sender rewrites the watermark of the message it
+// is handed into its own id space, so a shared object would carry one sender's proxy id to the next
+//@   sendpre sendChan: @private_copy: $value.Resp != msg.Resp && $value.Resp != nil && fresh($value.Resp)
 //@   loop 1 invariant @every_watermark_broadcast: calls(GetRemoteSendChansByCluster) == r.wmOnly - old(r.wmOnly)
 //@   wakeup shutdownChan.Channel()
 //@   arith wrap
